@@ -12,7 +12,8 @@ R.funtype("ApplyFn", params=["gid", "batch"], returns="Dict[str, Optional[int]]"
 R.optobj("OptApplyFn", "ApplyFn")
 R.objtype("Store", {"apply_deltas": "OptApplyFn"})
 R.optobj("OptStore", "Store")
-R.funtype("InvalidateFn", params=["ns"], returns="int", raises="Exception", effects_before=["inval.append(ns)"])
+R.funtype("InvalidateFn", params=["ns"], returns="int", raises="Exception", effects_before=["inval.append(ns)"],
+          effects_exc=["inval_err.append(ns)"])
 R.objtype("CacheMgr", {"invalidate_namespace": "InvalidateFn"})
 R.optobj("OptCacheMgr", "CacheMgr")
 R.dictrec("ApplyState", {"store": "OptStore", "version_etag": "Optional[str]", "_cache_mgr": "OptCacheMgr"})
@@ -29,7 +30,7 @@ R.contract("clematis/engine/snapshot.py:write_snapshot", "C04", verify=False,
            effects=["snaps.append((version_etag, applied))"])
 
 GHOST = {"calls": ("List[Tuple[str, List[ProposedDelta]]]", "empty"), "oks": ("List[bool]", "empty"),
-         "inval": ("List[str]", "empty"), "snaps": ("List[Tuple[str, int]]", "empty")}
+         "inval": ("List[str]", "empty"), "inval_err": ("List[str]", "empty"), "snaps": ("List[Tuple[str, int]]", "empty")}
 HAS_FN = "present(state['store']) and present(old(state['store']).apply_deltas)"
 NUMERIC = "(not is_none(old(state['version_etag'])) and int_parses(some(old(state['version_etag']))))"
 
@@ -54,6 +55,12 @@ R.contract(
         ("invalidation-in-order-prefix",
          "len(inval) <= len(ctx.config.t4['cache']['namespaces']) and "
          "forall(i, 0 <= i < len(inval), inval[i] == ctx.config.t4['cache']['namespaces'][i])"),
+        # the property: "invalidates the configured cache namespaces when cache busting is on" -- on every committed turn,
+        # whatever the store calls answered (a raising store does not mean an unchanged store: a non-atomic batch may have
+        # written before it raised); only a raising cache manager may cut the walk short
+        ("invalidation-complete-in-on-apply-mode",
+         "implies(ctx.config.t4['cache_bust_mode'] == 'on-apply' and present(state['_cache_mgr']) and (" + HAS_FN + ") and "
+         "len(inval_err) == 0, len(inval) == len(ctx.config.t4['cache']['namespaces']))"),
         ("snapshot-on-cadence",
          "len(snaps) == ite(ctx.turn_id % ite(ctx.config.t4['snapshot_every_n_turns'] > 1, ctx.config.t4['snapshot_every_n_turns'], 1) == 0, 1, 0)"),
         ("snapshot-carries-new-version", "implies(len(snaps) == 1, snaps[0][0] == state['version_etag'])"),
@@ -65,8 +72,8 @@ R.contract(
         0: {"inv": ["len(calls) == 1 + _i and len(oks) == 1 + _i",
                     "forall(j, 1 <= j < 1 + _i, calls[j][0] == 'g:surface' and len(calls[j][1]) == 1 and calls[j][1][0] == deltas[j - 1])",
                     "calls[0][0] == 'g:surface' and seq_eq(calls[0][1], deltas) and not oks[0]",
-                    "len(inval) == 0 and len(snaps) == 0"]},
-        1: {"inv": ["len(inval) == _i", "forall(j, 0 <= j < _i, inval[j] == _iter[j])", "len(snaps) == 0",
+                    "len(inval) == 0 and len(snaps) == 0 and len(inval_err) == 0"]},
+        1: {"inv": ["len(inval) == _i", "len(inval_err) == 0", "forall(j, 0 <= j < _i, inval[j] == _iter[j])", "len(snaps) == 0",
                     "len(calls) == len(pre_loop(calls)) and len(oks) == len(pre_loop(oks))",
                     "forall(j, 0 <= j < len(calls), calls[j] == pre_loop(calls)[j])",
                     "forall(j, 0 <= j < len(oks), oks[j] == pre_loop(oks)[j])"]},
